@@ -23,7 +23,7 @@ class C09(Prop):
     sources = ["socialchoicekit/flow.py", "socialchoicekit/utils.py"]
     groups = {"bip": Group("bip", "From SCK Require Import FlowModel BipModel RunBip.", "RunBip.bip_case", "RunBip.chk_bip")}
     rule = ("exhaustive: all bipartite graphs with 3+3 vertices (512 edge sets) in the directed and the undirected encoding, plus all on 2+3/3+2; "
-            "random: up to 7+7 vertices, densities .1-.8, isolated vertices on both sides, shuffled dict/adjacency orders; "
+            "random: up to 7+7 vertices, densities .1-.8, sparse graphs (left degree 1-4) up to 10+11 vertices, isolated vertices on both sides, shuffled dict/adjacency orders; "
             "adjacency lists that repeat an edge (oracle only); malformed stream (inconsistent X/Y) compared on the error class only. Non-trivial = non-empty matching; distinct by input hash")
     trusted_base = ["models FlowModel.v/BipModel.v of flow.py:205-277; validation (check_bipartite_graph) is not modelled: valid inputs must not raise, inconsistent X/Y must raise ValueError"]
     assumptions = ["graph is bipartite w.r.t. the supplied X, Y (wfbb): X, Y duplicate-free and disjoint, not using the reserved ids -1/-2, left adjacency lists duplicate-free and inside Y"]
@@ -64,12 +64,28 @@ class C09(Prop):
             es = [(x, y) for x in X for y in Y if rng.random() < rng.choice([0.3, 0.6])]
             es = es + [e for e in es if rng.random() < 0.4]
             yield self.mk("repeated", X, Y, es, rng.random() < 0.5, rng)
+        # larger sparse graphs: long alternating chains, augmentations through several reversed edges
+        for c in itertools.islice(self.search_cases(rng), 300 if tier == "quick" else 12000):
+            c["family"] = "sparse"; yield c
         for _ in range(30):
             a = rng.randint(1, 4); b = rng.randint(1, 4)
             X = list(range(a)); Y = list(range(a, a + b))
             c = self.mk("malformed", X, Y, [(x, y) for x in X for y in Y if rng.random() < 0.5], False, rng)
             c["Y"] = Y + [99]  # vertex unknown to G
             yield c
+
+    def search_cases(self, rng):
+        """after a broken obligation: larger sparse graphs (long alternating chains, several augmentations through reversed edges), which small dense graphs never need"""
+        for i in range(60000):
+            a = rng.randint(5, 10); b = rng.randint(max(5, a - 1), a + 1)
+            X = list(range(a)); Y = list(range(a, a + b))
+            es = set()
+            for x in X:
+                for y in rng.sample(Y, rng.choice([1, 2, 2, 3, 3, 4])): es.add((x, y))
+            yield self.mk("search_sparse", X, Y, sorted(es), False, rng)
+            if i % 20 == 19:      # and medium dense ones
+                a = rng.randint(4, 8); b = rng.randint(4, 8); X = list(range(a)); Y = list(range(a, a + b))
+                yield self.mk("search_random", X, Y, [(x, y) for x in X for y in Y if rng.random() < 0.4], rng.random() < 0.5, rng)
 
     def shrink(self, case):
         G = case["G"]
